@@ -1113,6 +1113,20 @@ var c15Corpus = []struct {
 	{"c15 cap=2 width=1 pb=def cb=def bottom=1 ; N ; t ; t", false},
 	{"c15 cap=2 width=1 pb=def cb=def bottom=1 ; R 0 1 0 4 0 ; t ; db 1 ; r 0 a0 ; t ; t ; t", false},
 	{"c15 cap=2 width=1 pb=def cb=def bottom=0 ; R 1 1 0 4 0 ; t ; t", false},
+	// hypothesis witnesses of Props/C15Hyp.lean replayed: zero requests per cycle, zero capacity, Top port
+	// without outgoing buffer (answered, never retired), Bottom port without outgoing buffer
+	{"c15 cap=2 width=0 pb=2,2,2,2 cb=def bottom=1 ; R 2 1 0 4 1 ; t ; t ; t ; db 1 ; dt 1", false},
+	{"c15 cap=0 width=1 pb=2,2,2,2 cb=def bottom=1 ; R 2 1 0 4 1 ; t ; t ; t ; db 1 ; dt 1", false},
+	{"c15 cap=2 width=1 pb=2,0,2,2 cb=def bottom=1 ; R 2 1 0 4 1 ; t ; db 1 ; r 0 d:01 ; t ; t ; t ; dt 1", false},
+	{"c15 cap=2 width=1 pb=2,2,2,0 cb=def bottom=1 ; R 2 1 0 4 1 ; t ; t ; t ; db 1", false},
+	// the builder's default port capacities at their boundaries (2*numReqPerCycle each way, Control 1/1):
+	// third request refused by the Top port; third copy refused by the Bottom port (id consumed); third
+	// answer refused by the Bottom port; third response waits for the Top port; second control message refused
+	{"c15 cap=8 width=1 pb=def cb=def bottom=1 ; R 2 1 0 4 1 ; R 2 1 64 4 1 ; R 2 1 128 4 1 ; t ; t ; R 2 1 128 4 1 ; R 2 1 192 4 1 ; R 2 1 256 4 1 ; t ; t ; t ; db 8 ; t ; t ; db 8 ; r 0 a1 ; r 0 a2 ; r 0 a3 ; t ; t ; r 0 a3 ; r 0 a4 ; t ; t ; t ; t ; t ; dt 8 ; t ; t ; dt 8 ; F ; S ; t ; dc ; dc", false},
+	// a lower level that answers twice (Props/C15Last.lean): with two stages per tick both answers are
+	// consumed before the retirement and the later one is delivered; with one the first is delivered
+	{"c15 cap=2 width=2 pb=2,2,2,2 cb=def bottom=1 ; R 2 1 0 4 1 ; t ; db 1 ; rk 0 d:01 ; r 0 d:02 ; t ; t ; dt 2", false},
+	{"c15 cap=2 width=1 pb=2,2,2,2 cb=def bottom=1 ; R 2 1 0 4 1 ; t ; db 1 ; rk 0 d:01 ; r 0 d:02 ; t ; t ; t ; dt 2", false},
 }
 
 func runC15(r *Run, rng *Rng, replay string) {
